@@ -92,3 +92,7 @@ uint8_t* X_memset(uint8_t* d, uint32_t v, uint64_t n){ for (uint64_t i = 0; i < 
 uint8_t* X_memmove(uint8_t* d, uint8_t* s, uint64_t n){ if (__CPROVER_POINTER_OBJECT(d) != __CPROVER_POINTER_OBJECT(s) || d <= s) { for (uint64_t i = 0; i < n; i++) d[i] = s[i]; } else { for (uint64_t i = n; i > 0; i--) d[i-1] = s[i-1]; } return d; }
 static uint32_t vrt_errno = 0;
 uint32_t* X___errno_location(void){ return &vrt_errno; }
+
+/* namespace-scope objects with destructors: registration is a no-op (harness processes never run exit handlers that matter) */
+uint8_t G___dso_handle = 0;
+uint32_t X___cxa_atexit(void* f, uint8_t* o, uint8_t* d){ (void)f; (void)o; (void)d; return 0; }
